@@ -1,6 +1,7 @@
 # Various node visitors to clean up nested function calls of various types.
 import ast
 import copy
+import re
 from typing import List, Tuple, Union, cast
 
 from func_adl.ast.call_stack import argument_stack, stack_frame
@@ -29,6 +30,17 @@ def arg_name():
     n = "arg_{0}".format(argument_var_counter)
     argument_var_counter += 1
     return n
+
+
+def reserve_arg_names(a: ast.AST):
+    """Make sure the names `arg_name` generates from now on do not collide with names of
+    the same form (`arg_N`) that are already used in `a`, e.g. because it was simplified before."""
+    global argument_var_counter
+    for n in ast.walk(a):
+        name = n.id if isinstance(n, ast.Name) else n.arg if isinstance(n, ast.arg) else None
+        m = re.fullmatch(r"arg_(\d+)", name) if name is not None else None
+        if m is not None:
+            argument_var_counter = max(argument_var_counter, int(m.group(1)) + 1)
 
 
 def make_args_unique(a: ast.Lambda) -> ast.Lambda:
@@ -139,6 +151,17 @@ class simplify_chained_calls(FuncADLNodeTransformer):
 
     def __init__(self):
         self._arg_stack = argument_stack()
+        self._visit_depth = 0
+
+    def visit(self, node: ast.AST):
+        if self._visit_depth == 0:
+            # New argument names must be new with respect to everything in this query
+            reserve_arg_names(node)
+        self._visit_depth += 1
+        try:
+            return super().visit(node)
+        finally:
+            self._visit_depth -= 1
 
     def visit_Select_of_Select(self, parent: ast.Call, selection: ast.Lambda):
         r"""
